@@ -711,6 +711,28 @@ theorem copy_listing_rooted (sibs : List Entry) (item : Str) (l : List (PathS ×
     (h : copyListing sibs item = (item, some l)) : ([item], true) ∈ l :=
   copyListing_rooted sibs item l h
 
+/-- **Every page that `get_page_tree` builds attempts every item of its `copy_subdir`**: for every page directory,
+    every variant and every page of the resulting tree, the copy loop of the page runs over exactly the items of
+    the page's `copy_subdir` (none is dropped, in order), and every item that is a directory next to the page is
+    a directory next to the written page after the run - no hypothesis on the lists (missing names, files,
+    repetitions, names of sub-trees), on the order of the pages, or on what other pages copy. -/
+theorem built_pages_copy_every_listed_directory (v : Variant) (cs : List Entry) (top n : Node)
+    (h : getPageTree v cs = .page top) (hn : n ∈ preorder top) :
+    n.copies.map Prod.fst = n.copySub ∧
+    ∀ it l, (it, some l) ∈ n.copies → n.loc ++ [it] ∈ paths (outputs top) := by
+  have hall := getPageTree_copyOk v cs
+  rw [h] at hall
+  obtain ⟨h1, h2⟩ := hall n hn
+  exact ⟨h1, fun it l hm => copy_subdir_every_item_attempted top n it l hn hm (h2 it l hm)⟩
+
+/-- ... in particular for a run of the source under test with any project `copy_subdir` and any project encoding,
+    on the directory as it is on disk. -/
+theorem project_run_copies_every_listed_directory (v : Variant) (enc : Str) (pcs : List Str) (cs : List RawEntry)
+    (top n : Node) (h : getPageTreeProj CallSites.gen v enc pcs cs = .page top) (hn : n ∈ preorder top) :
+    n.copies.map Prod.fst = n.copySub ∧
+    ∀ it l, (it, some l) ∈ n.copies → n.loc ++ [it] ∈ paths (outputs top) :=
+  built_pages_copy_every_listed_directory v _ top n h hn
+
 /-- **The copy loop copies whole directories**: in a `copy_subdir` list of distinct names (listings rooted at
     their own names, as `copyListing` makes them), every directory whose place next to the page is still free
     when the loop starts is copied completely - every file and directory below it, at the same relative path -
